@@ -46,6 +46,10 @@ def scenario(draw, tier="quick"):
     fault = None
     if draw(st.integers(0, 3)) > 0:
         fault = {"cb": draw(st.sampled_from(CBS)), "n": draw(st.integers(0, 12)), "exc": draw(st.sampled_from(["flumine", "plain"]))}
+        if fault["cb"] != "middleware" and draw(st.integers(0, 2)) == 0:
+            # B's code fails while it looks at the real clock through the documented helper (simulated_datetime.real_time())
+            fault["in_real_time"] = True
+            fault["exc"] = "plain"
     filters = {}
     if steps and steps[-1]["k"] == "close" and draw(st.integers(0, 2)) == 0:
         # strategies with different listener filters on the same file (each filter set gets its own stream); only
